@@ -160,6 +160,11 @@ enum Mutation {
     OtherSource(SocketAddr),
     RedirectAsIs,
     RedirectRemasked,
+    /// Header unmasked (the mask key is the public destination id), authdata extended by these
+    /// bytes with the size field adjusted, header masked again; body untouched.
+    AuthdataExtend(Vec<u8>),
+    /// Likewise, the last n bytes of the authdata removed.
+    AuthdataShrink(usize),
     Identity,
 }
 
@@ -182,9 +187,20 @@ impl Mutation {
             Mutation::OtherSource(_) => "other-source-address".into(),
             Mutation::RedirectAsIs => "redirect:as-is-to-other-node".into(),
             Mutation::RedirectRemasked => "redirect:remasked-for-other-node".into(),
+            Mutation::AuthdataExtend(_) => "authdata:extended-and-remasked".into(),
+            Mutation::AuthdataShrink(_) => "authdata:shortened-and-remasked".into(),
             Mutation::Identity => "identity".into(),
         }
     }
+}
+
+/// Rebuilds a datagram with an edited authdata: unmask, edit, fix the size field, mask again.
+fn edit_authdata(bytes: &[u8], dst: &Id, edit: impl FnOnce(&mut Vec<u8>)) -> Option<Vec<u8>> {
+    let dec = codec_ref::decode(dst, bytes).ok()?;
+    let flag = dec.aad[16 + 8];
+    let mut authdata = dec.aad[39..].to_vec();
+    edit(&mut authdata);
+    Some(codec_ref::RawPacket::new(dec.iv, flag, dec.nonce, authdata, dec.message.clone()).encode(dst))
 }
 
 fn remask(bytes: &[u8], from: &Id, to: &Id) -> Vec<u8> {
@@ -307,7 +323,7 @@ pub fn scenario(seed: u64, exhaustive_bits: bool, trials: usize, rep: &mut Repor
                 bit_cursor += 1;
                 Mutation::BitFlip(bit_cursor - 1)
             } else {
-                match lab.rng.below(24) {
+                match lab.rng.below(27) {
                     0..=9 => {
                         // stratified over the five regions
                         let r = regions(genuine.len(), auth);
@@ -335,6 +351,11 @@ pub fn scenario(seed: u64, exhaustive_bits: bool, trials: usize, rep: &mut Repor
                     }),
                     20 => Mutation::RedirectAsIs,
                     21 => Mutation::RedirectRemasked,
+                    22 | 23 => {
+                        let n = 1 + lab.rng.usize(32);
+                        Mutation::AuthdataExtend(lab.rng.bytes(n))
+                    }
+                    24 => Mutation::AuthdataShrink(1 + lab.rng.usize(4)),
                     _ => Mutation::Identity,
                 }
             };
@@ -404,6 +425,17 @@ pub fn scenario(seed: u64, exhaustive_bits: bool, trials: usize, rep: &mut Repor
                     to_second = true;
                     remask(&genuine, &vid, &v2id)
                 }
+                Mutation::AuthdataExtend(extra) => match edit_authdata(&genuine, &vid, |a| a.extend_from_slice(extra)) {
+                    Some(b) if b.len() <= 1280 => b,
+                    _ => continue,
+                },
+                Mutation::AuthdataShrink(n) => match edit_authdata(&genuine, &vid, |a| {
+                    let keep = a.len().saturating_sub(*n);
+                    a.truncate(keep)
+                }) {
+                    Some(b) => b,
+                    None => continue,
+                },
                 Mutation::Identity => genuine.clone(),
             };
             let class = mutation.class(genuine.len(), auth);
